@@ -5,28 +5,32 @@
 (*   only when reading fails (which is also how Close stops it).               *)
 (* Handlers run concurrently with the loop and may outlive any number of later *)
 (* reads; the message they were given must stay the decoding of their own      *)
-(* datagram.                                                                   *)
+(* datagram.  Serve may be running in several goroutines on one server         *)
+(* (Loops): each loop reads into its own buffer.                               *)
 EXTENDS Integers, Sequences, FiniteSets, TLC
 
 CONSTANTS V4,                \* BOOLEAN: DHCPv4 peer rule (sender without address -> limited broadcast)
+          Loops,             \* the goroutines running Serve on this server
           StopOnParseError,  \* deliberately wrong design switches (must be FALSE for the real servers)
-          ReuseReadBuffer
+          ReuseReadBuffer,   \*   one read buffer per loop, kept across iterations
+          ServerWideBuffer   \*   one read buffer per server, shared by its loops
 
 VARIABLES net,       \* datagrams waiting in the socket: sequence of [kind, sender, port, id]
           narr,      \* number of datagrams that ever arrived
-          pc,        \* "loop" | "blocked" | "parse" | "returned"
-          cur,       \* the datagram just read
+          pc,        \* per loop: "loop" | "blocked" | "parse" | "failed" | "returned"
+          cur,       \* per loop: the datagram just read, its index in reads and what its buffer now holds
           reads,     \* sequence of all datagrams read so far
           spawned,   \* handler invocations: sequence of [id, peer, content, done]
           closed,    \* the connection has been closed
-          ret        \* why Serve returned
+          ret        \* per loop: why Serve returned
 vars == <<net, narr, pc, cur, reads, spawned, closed, ret>>
 
 Kinds == {"valid", "undec", "empty", "err"}
 Senders == {"ip", "noip", "zeroip"}
+NoDgram == [kind |-> "none", ri |-> 0, content |-> 0]
 
-Init == /\ net = <<>> /\ narr = 0 /\ pc = "loop" /\ cur = [kind |-> "none"] /\ reads = <<>>
-        /\ spawned = <<>> /\ closed = FALSE /\ ret = "none"
+Init == /\ net = <<>> /\ narr = 0 /\ pc = [l \in Loops |-> "loop"] /\ cur = [l \in Loops |-> NoDgram] /\ reads = <<>>
+        /\ spawned = <<>> /\ closed = FALSE /\ ret = [l \in Loops |-> "none"]
 
 \* the peer handed to the handler
 PeerOf(d) == IF V4 /\ d.sender \in {"noip", "zeroip"} THEN [addr |-> "bcast", port |-> d.port]
@@ -37,52 +41,64 @@ Arrive(kind, sender, port) ==
     /\ narr' = narr + 1
     /\ UNCHANGED <<pc, cur, reads, spawned, closed, ret>>
 
-CallRead == /\ pc = "loop" /\ pc' = "blocked"
-            /\ UNCHANGED <<net, narr, cur, reads, spawned, closed, ret>>
+CallRead(l) == /\ pc[l] = "loop" /\ pc' = [pc EXCEPT ![l] = "blocked"]
+               /\ UNCHANGED <<net, narr, cur, reads, spawned, closed, ret>>
 
 \* ReadFrom returns a datagram (or a read error that is not caused by Close)
-Read == /\ pc = "blocked" /\ ~closed /\ net # <<>>
-        /\ cur' = Head(net) /\ net' = Tail(net) /\ reads' = Append(reads, Head(net))
-        /\ IF Head(net).kind = "err"
-           THEN pc' = "returned" /\ ret' = "readerr" /\ closed' = TRUE       \* defer s.Close()
-           ELSE pc' = "parse" /\ UNCHANGED <<ret, closed>>
-        \* a shared read buffer would be overwritten under the feet of running handlers
-        /\ spawned' = IF ReuseReadBuffer /\ Head(net).kind # "err"
-                      THEN [h \in DOMAIN spawned |-> IF spawned[h].done THEN spawned[h]
-                                                     ELSE [spawned[h] EXCEPT !.content = Head(net).id]]
-                      ELSE spawned
-        /\ UNCHANGED narr
-ReadClosed == /\ pc = "blocked" /\ closed
-              /\ pc' = "returned" /\ ret' = "closed"
-              /\ UNCHANGED <<net, narr, cur, reads, spawned, closed>>
-ParseFail == /\ pc = "parse" /\ cur.kind \in {"undec", "empty"}
-             /\ IF StopOnParseError THEN pc' = "returned" /\ ret' = "parseerr" /\ closed' = TRUE
-                ELSE pc' = "loop" /\ UNCHANGED <<ret, closed>>
-             /\ UNCHANGED <<net, narr, cur, reads, spawned>>
-Spawn == /\ pc = "parse" /\ cur.kind = "valid"
-         /\ spawned' = Append(spawned, [id |-> cur.id, peer |-> PeerOf(cur), content |-> cur.id, done |-> FALSE])
-         /\ pc' = "loop"
-         /\ UNCHANGED <<net, narr, cur, reads, closed, ret>>
+Read(l) ==
+    /\ pc[l] = "blocked" /\ ~closed /\ net # <<>>
+    /\ LET d == Head(net)
+           mine == [kind |-> d.kind, sender |-> d.sender, port |-> d.port, id |-> d.id, ri |-> Len(reads) + 1, content |-> d.id]
+       IN /\ net' = Tail(net) /\ reads' = Append(reads, d)
+          \* a buffer shared by the loops of a server is overwritten under the feet of a loop that is still decoding
+          /\ cur' = [m \in Loops |-> IF m = l THEN mine
+                                     ELSE IF ServerWideBuffer /\ d.kind # "err" /\ pc[m] = "parse" THEN [cur[m] EXCEPT !.content = d.id]
+                                     ELSE cur[m]]
+          /\ pc' = [pc EXCEPT ![l] = IF d.kind = "err" THEN "failed" ELSE "parse"]
+          /\ UNCHANGED <<ret, closed>>
+          \* a read buffer kept across iterations would be overwritten under the feet of running handlers
+          /\ spawned' = IF (ReuseReadBuffer \/ ServerWideBuffer) /\ d.kind # "err"
+                        THEN [h \in DOMAIN spawned |-> IF spawned[h].done \/ (~ServerWideBuffer /\ spawned[h].loop # l) THEN spawned[h]
+                                                       ELSE [spawned[h] EXCEPT !.content = d.id]]
+                        ELSE spawned
+    /\ UNCHANGED narr
+\* the failed read makes this Serve return; its deferred Close closes the connection under the other loops
+ReadErrReturn(l) == /\ pc[l] = "failed"
+                    /\ pc' = [pc EXCEPT ![l] = "returned"] /\ ret' = [ret EXCEPT ![l] = "readerr"] /\ closed' = TRUE
+                    /\ UNCHANGED <<net, narr, cur, reads, spawned>>
+ReadClosed(l) == /\ pc[l] = "blocked" /\ closed
+                 /\ pc' = [pc EXCEPT ![l] = "returned"] /\ ret' = [ret EXCEPT ![l] = "closed"]
+                 /\ UNCHANGED <<net, narr, cur, reads, spawned, closed>>
+ParseFail(l) == /\ pc[l] = "parse" /\ cur[l].kind \in {"undec", "empty"}
+                /\ IF StopOnParseError THEN pc' = [pc EXCEPT ![l] = "returned"] /\ ret' = [ret EXCEPT ![l] = "parseerr"] /\ closed' = TRUE
+                   ELSE pc' = [pc EXCEPT ![l] = "loop"] /\ UNCHANGED <<ret, closed>>
+                /\ UNCHANGED <<net, narr, cur, reads, spawned>>
+Spawn(l) == /\ pc[l] = "parse" /\ cur[l].kind = "valid"
+            /\ spawned' = Append(spawned, [id |-> cur[l].id, peer |-> PeerOf(cur[l]), content |-> cur[l].content, done |-> FALSE, loop |-> l])
+            /\ pc' = [pc EXCEPT ![l] = "loop"]
+            /\ UNCHANGED <<net, narr, cur, reads, closed, ret>>
 HandlerFinish(h) == /\ h \in DOMAIN spawned /\ ~spawned[h].done
                     /\ spawned' = [spawned EXCEPT ![h].done = TRUE]
                     /\ UNCHANGED <<net, narr, pc, cur, reads, closed, ret>>
 CloseCall == /\ ~closed /\ closed' = TRUE
              /\ UNCHANGED <<net, narr, pc, cur, reads, spawned, ret>>
 
-LoopStep == CallRead \/ Read \/ ReadClosed \/ ParseFail \/ Spawn
+LoopStep(l) == CallRead(l) \/ Read(l) \/ ReadErrReturn(l) \/ ReadClosed(l) \/ ParseFail(l) \/ Spawn(l)
 
 \* --------------------------------------------------------------- properties (C14)
 ValidRead == {i \in DOMAIN reads : reads[i].kind = "valid"}
-Handled == IF pc = "parse" /\ cur.kind = "valid" THEN ValidRead \ {Len(reads)} ELSE ValidRead
-\* exactly once for each datagram that decodes, never for one that does not, in read order
+InParse == {cur[l].ri : l \in {m \in Loops : pc[m] = "parse" /\ cur[m].kind = "valid"}}
+Handled == ValidRead \ InParse
+\* exactly once for each datagram that decodes, never for one that does not; in read order when one loop serves
 ExactlyOnce == /\ Len(spawned) = Cardinality(Handled)
                /\ \A h \in DOMAIN spawned : \E i \in Handled : reads[i].id = spawned[h].id
-               /\ \A g, h \in DOMAIN spawned : g < h => spawned[g].id < spawned[h].id
+               /\ \A g, h \in DOMAIN spawned : g # h => spawned[g].id # spawned[h].id
+               /\ Cardinality(Loops) = 1 => \A g, h \in DOMAIN spawned : g < h => spawned[g].id < spawned[h].id
 PeerRule == \A h \in DOMAIN spawned : \E i \in DOMAIN reads :
                reads[i].id = spawned[h].id /\ spawned[h].peer = PeerOf(reads[i])
 \* the message a handler holds is the decoding of its own datagram, also after later reads
 OwnMessage == \A h \in DOMAIN spawned : spawned[h].content = spawned[h].id
 \* Serve returns only when reading failed or the server was closed
-ReturnOnlyOnError == pc = "returned" => ret \in {"readerr", "closed"}
-LoopSurvives == [][ParseFail => pc' = "loop"]_vars
+ReturnOnlyOnError == \A l \in Loops : pc[l] = "returned" => ret[l] \in {"readerr", "closed"}
+LoopSurvives == [][\A l \in Loops : ParseFail(l) => pc'[l] = "loop"]_vars
 =============================================================================
